@@ -83,7 +83,7 @@ TStep ==
 
 TPanic ==
     /\ Ev.e = "panic"
-    \* "runaway": the harness stopped a run call after 100 ticks (run_available did not become idle;
+    \* "runaway": the harness stopped a run call after 30 ticks (run_available did not become idle;
     \* the generator only uses run_available where the model becomes idle)
     /\ viol' = viol \cup {<<pid, hid, stepno + 1,
                             IF Ev.msg = "runaway" THEN "run-available-did-not-stop" ELSE "panic">>}
